@@ -126,8 +126,12 @@ func cmdSelftest(args []string) int {
 		self, _ := os.Executable()
 		c := exec.Command(self, "check", prop, "--repo", scratch, "--verif", *verif, "--out", filepath.Join(tmp, "out"))
 		c.Env = goEnv()
-		out, _ = c.CombinedOutput()
+		out, cerr := c.CombinedOutput()
 		got := "silent"
+		if cerr != nil {
+			// a check that dies without saying VIOLATION is neither silent nor a detection
+			got = "error"
+		}
 		var lines []string
 		for _, l := range strings.Split(string(out), "\n") {
 			if strings.HasPrefix(l, "VIOLATION") {
